@@ -29,7 +29,52 @@ chk('C12',
     'symbolic execution of _Modifying and the failing edit paths with symbolic indices; pre/post state equality; CPython re-parse after the follow-up edit',
     'DESIGN.md section 4 C12')
 
-for _p in ['C02','C04','C05','C06','C07','C08','C09','C10','C13','C14','C15','C16','C17','C18','C20']:
+chk('C02',
+    'T1: on 13 symbolically re-laid-out trees every node that moves under the put_src-offset shift, and every ancestor, loses its cached answers (poison entries) for all layouts/spots/sizes. '
+    'P1/P2: [read-only queries of a symbolic kind on all nodes] -> [edit with symbolic indices over Z, or comment/docstring accessor on a symbolic target, or nothing] -> ~15 kinds of answers '
+    '(loc, bloc, pars, own_src in 3 variants asked in a rotating order, byte coordinates, text at loc, parent/pfield/root, next/prev/first/last child, view lengths, docstring, line comment) '
+    'on EVERY node equal the same answers on FST(root.src) built from scratch; root identity kept; 3-step histories after comment puts.',
+    'Bounds: 29 carriers + 1 accessor carrier, listed query kinds, histories <= 3 steps. Outside: other programs and queries.',
+    'symbolic execution of edit entry points with symbolic indices and query schedules; oracle = the same queries on a freshly parsed tree',
+    'DESIGN.md section 4 C02')
+chk('C04',
+    'K1: leading_trivia / trailing_trivia with the surrounding lines made of symbolic characters over the classes the scanners distinguish: the selected region never contains a code line, stays within the bound, '
+    'honours none/block/all/line and the blank-line budget (which lines an edit may touch). K2: get_trivia_params == the documented option table with symbolic N in +N/-N. '
+    'P1: edits with symbolic indices on comment-rich carriers: tokenize-based accounting (COMMENT/NAME/NUMBER/STRING multisets after = before - removed elements + new elements), '
+    'no comment lost on a pure insertion, with trivia=(False, False) no comment lost outside the removed span, lines outside the container byte-identical.',
+    'Bounds: 2-3 free lines x 2 symbolic characters per kernel cell; listed carriers. Two comment-loss defects of sequence insertion are listed as known findings (known_findings.json).',
+    'symbolic execution of trivia selection over symbolic characters; tokenize multiset accounting at leaves of symbolic-index edits',
+    'DESIGN.md section 4 C04')
+chk('C06',
+    'K1: bistr c2b/b2c/lenbytes == UTF-8 prefix sums for strings of <= 3 ARBITRARY code points incl. the cached lookup path. K2: next_frag / prev_frag == an independent character-class scanner for lines of <= 4 arbitrary code points, all bounds, comment/lcont flags. '
+    'T1: for EVERY Unicode scalar >= U+0080 at the marked positions of 6 carriers, loc/bloc/pars/byte coordinates/text-at-loc of every node are the re-lettering of marker answers which are themselves checked against CPython positions and ast.get_source_segment. '
+    'T2: find_contains_loc / find_in_loc with the query rectangle symbolic vs. a brute-force scan over ast.walk with the documented tie-breaks.',
+    'Bounds: string/line lengths above; carriers listed. One defect fixed (exact_top), decorators invisible to the by-location search listed as known findings.',
+    'symbolic execution of byte/char maps and scanners over arbitrary code points; Unicode re-lettering templates; brute-force location search as reference',
+    'DESIGN.md section 4 C06')
+chk('C14',
+    'T1: the position merges in syntax_ordered_children (Call, ClassDef) return a sorted permutation for EVERY assignment of (line in 1..3, column unbounded) to <= 3 starred positionals and <= 3 keywords (+ plain positionals). '
+    'P1: on a carrier set covering every AST leaf class of Python 3.12, walk(all/loc/False, back) visits exactly ast.walk once, parents first, siblings in text order; back reverses siblings only; leave/both bracketing; '
+    'step_fwd reproduces walk; next/prev/next_child/prev_child agree with walk(recurse=False) and are mutually inverse; child_path/child_from_path invert each other — for every start node.',
+    'Bounds: merge sizes above; 4 carrier programs (finite choice variables enumerated by the solver for P1).',
+    'symbolic execution of the merge code over symbolic positions; cross-API agreement with ast.walk and source positions as reference',
+    'DESIGN.md section 4 C14')
+chk('C17',
+    'K1: the backtracking list matcher through MGlobal(...).match(ast.Global(...)): target = 0-4 SYMBOLIC letters, every quantifier min/max SYMBOLIC integers (None = unbounded), greedy/lazy per item, sub-list quantifiers: '
+    'accept/reject == regular-expression semantics, captured counts == first solution in textbook backtracking order, second call identical. K1b: bare-class MQSTAR/MQPLUS/MQOPT(+NG) == .* .+ .? . '
+    'K2: leaf matchers == equality incl. int/bool/str distinctions. P1: search(p) == [n for n in walk if match(p)] for 6x6 patterns under 10 combinator wrappers, on the formatted tree, a re-laid-out tree and the pure AST.',
+    'Bounds: targets <= 4, <= 2 quantified items, listed skeletons/wrappers. Two defects fixed (sub-list backtracking step, MNOT pre-filter).',
+    'symbolic execution of the quantifier engine with symbolic counts and symbolic target letters; reference = 30-line backtracking regex semantics',
+    'DESIGN.md section 4 C17')
+chk('C20',
+    'K1: the option store, one cell per option: value over a 39-value vocabulary (all documented forms + near misses), a second option (valid / unknown / invalid), raising blocks, nested blocks and inner set_options: '
+    'invalid => rejected with get_options() identical (validate-all-then-update), otherwise exactly the named options change and are restored exactly on block exit, accept/reject == documented value grammar. '
+    'P1: an option passed to one edit never changes the defaults (also on raise), per-call result == per-block result, next call unaffected, symbolic slice bounds.',
+    'Threads are OUTSIDE the claim: the symbolic executor is single-threaded (no schedule exploration). One defect fixed (trivia="" accepted).',
+    'symbolic execution of check_options/set_options/options()/get_option with symbolic value and nesting choices; reference = documented grammar',
+    'DESIGN.md section 4 C20')
+
+for _p in ['C05','C07','C08','C09','C10','C13','C15','C16','C18']:
     NA[_p] = 'check under construction in this session (see DESIGN.md section 4); will be claimed once its harness is committed'
 NA['C19'] = ('coercion maps (tree, mode) to a tree through unparse/ast.parse (C code) before any pfst coercion code runs: no integer, character or schedule variable survives '
              'symbolically, what remains is a finite table judged by the C parser, i.e. enumeration of concrete runs, not a solver question (DESIGN.md section 5)')
